@@ -147,7 +147,124 @@ def extract(repo):
         m = re.search(r'self\.val\s*>>\s*(\w+).*self\.val\s*&\s*(\w+)', b, re.S)
         return [lit(g) for g in m.groups()]
     pin('exts_dir_bits', dirbits)
+    extract_avx2(pin, rd)
     return items, stale
+
+
+def strip_block_comments(s):
+    return re.sub(r'/\*.*?\*/', '', s, flags=re.S)
+
+
+def ilit(tok):
+    """integer expression of the AVX2 tables: 12, 0b01_11, 0i64, `1i8 << 7` (value taken modulo 256 for i8)"""
+    tok = tok.strip()
+    m = re.fullmatch(r'(\w+?)(i8|i64)?\s*<<\s*(\w+)', tok)
+    if m:
+        v = lit(m.group(1)) << lit(m.group(3))
+        return v % 256 if m.group(2) == 'i8' else v
+    return lit(re.sub(r'(i8|i64)$', '', tok))
+
+
+def extract_avx2(pin, rd):
+    """constants of src/bitops_avx2.rs (C16).  Vectors built with _mm256_set_epi8/_mm256_set_epi64x are
+    recorded in the order the arguments are written (most significant element first); the model reverses."""
+    try:
+        src = strip_block_comments(rd('bitops_avx2.rs'))
+    except Exception:  # noqa
+        src = ''
+    pack = fn_body(src, r'unsafe\s+fn\s+pack_32_bases\s*\([^)]*\)\s*->\s*u64\s*\{') or ''
+    conv = fn_body(src, r'unsafe\s+fn\s+convert_bases\s*\([^)]*\)\s*->\s*\([^)]*\)\s*\{') or ''
+
+    def set_epi8(body, name):
+        m = re.search(r'let\s+%s\s*=\s*_mm256_set_epi8\s*\(([^;]*?)\)\s*;' % name, body, re.S)
+        xs = [ilit(t) for t in m.group(1).split(',') if t.strip()]
+        if len(xs) != 32:
+            raise ValueError(name)
+        return xs
+
+    def one(body, pat):
+        m = re.search(pat, body, re.S)
+        if not m:
+            raise ValueError(pat)
+        return m
+
+    pin('avx_reverse_mask', lambda: set_epi8(pack, 'reverse_mask'))
+    pin('avx_shuffle_reverse', lambda: bool(one(pack, r'let\s+reversed\s*=\s*_mm256_shuffle_epi8\s*\(\s*bases\s*,\s*reverse_mask\s*\)\s*;')) and 1)
+    pin('avx_permute_imm', lambda: ilit(one(pack, r'let\s+permuted\s*=\s*_mm256_permute4x64_epi64\s*\(\s*reversed\s*,\s*(\w+)\s*\)\s*;').group(1)))
+    pin('avx_slli_first', lambda: ilit(one(pack, r'let\s+first_bits\s*=\s*_mm256_slli_epi16\s*\(\s*permuted\s*,\s*(\w+)\s*\)\s*;').group(1)))
+    pin('avx_slli_second', lambda: ilit(one(pack, r'let\s+second_bits\s*=\s*_mm256_slli_epi16\s*\(\s*permuted\s*,\s*(\w+)\s*\)\s*;').group(1)))
+    pin('avx_unpack_order', lambda: bool(
+        one(pack, r'let\s+lo_half\s*=\s*_mm256_unpacklo_epi8\s*\(\s*first_bits\s*,\s*second_bits\s*\)\s*;') and
+        one(pack, r'let\s+hi_half\s*=\s*_mm256_unpackhi_epi8\s*\(\s*first_bits\s*,\s*second_bits\s*\)\s*;') and
+        one(pack, r'let\s+packed_lo\s*=\s*\(\s*_mm256_movemask_epi8\s*\(\s*lo_half\s*\)\s*as\s+u32\s*\)\s*as\s+u64\s*;') and
+        one(pack, r'let\s+packed_hi\s*=\s*\(\s*_mm256_movemask_epi8\s*\(\s*hi_half\s*\)\s*as\s+u32\s*\)\s*as\s+u64\s*;')) and 1)
+    pin('avx_hi_shift', lambda: ilit(one(pack, r'\(\s*packed_hi\s*<<\s*(\w+)\s*\)\s*\|\s*packed_lo\s*$').group(1)))
+
+    def hi_lut():
+        blk = one(conv, r'let\s+hi_lut\s*=\s*\{(.*?)\}\s*;').group(1)
+        one(blk, r'let\s+mut\s+lut_hi\s*=\s*0i64\s*;')
+        terms = re.findall(r"lut_hi\s*\|=\s*1i64\s*<<\s*\(\s*\(\s*(b'.')\s*as\s+i64\s*\)\s*-\s*(\w+)\s*\)\s*;", blk)
+        if not terms or len(terms) != len(re.findall(r'lut_hi\s*\|=', blk)):
+            raise ValueError('hi_lut terms')
+        offs = {ilit(o) for _, o in terms}
+        if len(offs) != 1:
+            raise ValueError('hi_lut offset')
+        w = one(blk, r'_mm256_set_epi64x\s*\(([^)]*)\)\s*$').group(1)
+        words = [1 if t.strip() == 'lut_hi' else (0 if ilit(t) == 0 else None) for t in w.split(',')]
+        if len(words) != 4 or None in words:
+            raise ValueError('hi_lut words')
+        return [[lit(c) for c, _ in terms], offs.pop(), words]
+    pin('avx_hi_lut', hi_lut)
+    pin('avx_lo_lut', lambda: set_epi8(conv, 'lo_lut'))
+    pin('avx_lut', lambda: set_epi8(conv, 'lut'))
+    pin('avx_lo_mask', lambda: ilit(one(conv, r'let\s+lo_mask\s*=\s*_mm256_set1_epi8\s*\(\s*(\w+)\s*\)\s*;').group(1)))
+    def hashn():
+        ds = strip_block_comments(rd('dna_string.rs'))
+        b = fn_body(ds, r'pub\s+fn\s+from_acgt_bytes_hashn\s*\([^)]*\)\s*->\s*DnaString\s*\{')
+        m = one(b, r'let\s+v\s*=\s*match\s+c\s*\{(.*?)_\s*=>\s*\{(.*?)\}\s*\}\s*;')
+        tbl = match_table('match c {' + m.group(1) + ' _ => 4u8, }')
+        one(m.group(2), r'let\s+mut\s+hasher_clone\s*=\s*hasher\.clone\(\)\s*;\s*pos\.hash\(\s*&mut\s+hasher_clone\s*\)\s*;')
+        md = ilit(one(m.group(2), r'\(\s*hasher_clone\.finish\(\)\s*%\s*(\w+)\s*\)\s*as\s+u8\s*$').group(1))
+        one(b, r'let\s+mut\s+hasher\s*=\s*DefaultHasher::new\(\)\s*;\s*read_name\.hash\(\s*&mut\s+hasher\s*\)\s*;')
+        return [tbl, md]
+    pin('hashn', hashn)
+
+    def ingest():
+        ds = strip_block_comments(rd('dna_string.rs'))
+        e = fn_body(ds, r'pub\s+fn\s+extend\s*\([^)]*\)\s*\{')
+        fill = ilit(one(e, r'while\s+self\.len\s*%\s*(\w+)\s*!=\s*0').group(1))
+        off = ilit(one(e, r'let\s+mut\s+offset\s*=\s*(\w+)\s*;').group(1))
+        grp = ilit(one(e, r'for\s+_\s+in\s+0\s*\.\.\s*(\w+)\s*\{').group(1))
+        lim = ilit(one(e, r'assert!\s*\(\s*b\s*<\s*(\w+)\s*\)').group(1))
+        step = ilit(one(e, r'val\s*\|=\s*\(\s*b\s+as\s+u64\s*\)\s*<<\s*offset\s*;\s*offset\s*-=\s*(\w+)\s*;').group(1))
+        f = fn_body(ds, r'pub\s+fn\s+from_acgt_bytes\s*\([^)]*\)\s*->\s*DnaString\s*\{')
+        m = one(f, r'for\s+chunk\s+in\s+bytes\.chunks\(\s*(\w+)\s*\)\s*\{\s*if\s+chunk\.len\(\)\s*==\s*(\w+)\s*\{')
+        return [fill, off, grp, lim, step, ilit(m.group(1)), ilit(m.group(2))]
+    pin('ascii_ingest', ingest)
+    pin('avx_srli_hi', lambda: ilit(one(conv, r'let\s+hi\s*=\s*_mm256_and_si256\s*\(\s*_mm256_srli_epi16\s*\(\s*input\s*,\s*(\w+)\s*\)\s*,\s*lo_mask\s*\)\s*;').group(1)))
+
+
+def render_avx2(items):
+    o = ['(* AVX2 constants of bitops_avx2.rs; set_epi8/set_epi64x vectors in written order (most significant element first) *)']
+    for k in ('avx_reverse_mask', 'avx_lo_lut', 'avx_lut'):
+        o.append('Definition %s : list N := %s.' % (k, nlist(items[k])))
+    for k in ('avx_permute_imm', 'avx_lo_mask'):
+        o.append('Definition %s : N := %d.' % (k, items[k]))
+    for k in ('avx_slli_first', 'avx_slli_second', 'avx_hi_shift', 'avx_srli_hi'):
+        o.append('Definition %s : nat := %d%%nat.' % (k, items[k]))
+    letters, off, words = items['avx_hi_lut']
+    o.append('Definition avx_hi_lut_letters : list N := %s.' % nlist(letters))
+    o.append('Definition avx_hi_lut_offset : N := %d.' % off)
+    o.append('(* arguments of _mm256_set_epi64x as written: 1 = lut_hi, 0 = 0i64 *)')
+    o.append('Definition avx_hi_lut_words : list N := %s.' % nlist(words))
+    o.append('(* from_acgt_bytes_hashn: literal match arms (4 = the hashed arm) and the modulus applied to the hash *)')
+    o.append('Definition tbl_hashn_arms : list N := %s.' % nlist(items['hashn'][0]))
+    o.append('Definition hashn_modulus : N := %d.' % items['hashn'][1])
+    o.append('(* DnaString::extend: fill modulus, first offset, group size, assert bound, offset step; from_acgt_bytes: chunks(n), full-chunk test *)')
+    for nm, v in zip(('ascii_fill_mod', 'ascii_offset0', 'ascii_group', 'ascii_assert_lt', 'ascii_offset_step', 'ascii_chunk', 'ascii_chunk_full'), items['ascii_ingest']):
+        o.append('Definition %s : nat := %d%%nat.' % (nm, v))
+    o.append('')
+    return '\n'.join(o)
 
 
 def nlist(xs):
@@ -179,6 +296,7 @@ def render(items):
               'exts_single_dir', 'exts_dir_bits'):
         o.append('Definition %s : list N := %s.' % (k, nlist(items[k])))
     o.append('')
+    o.append(render_avx2(items))
     return '\n'.join(o)
 
 
